@@ -66,6 +66,8 @@ def gen_plan(rng, tier):
             op.update({"op": "malformed", "what": rng.choice(MALFORMED), "seed": rng.getrandbits(30)})
         elif r < 0.88:
             op.update({"op": "construct_fuzz", "seed": rng.getrandbits(30)})
+        elif r < 0.905:
+            op.update({"op": "linalg", "f": rng.choice(["matmul", "inv", "det", "eigh", "jack_matmul", "einsum", "svd"]), "k": rng.randrange(64)})
         elif r < 0.94:
             op.update({"op": "interrupt", "f": rng.choice(["add", "mul", "div", "exp", "gm", "json"]), "frac": round(rng.random(), 4)})
         elif r < 0.97:
@@ -530,6 +532,46 @@ def step(ctx, op, pool, a, b, plan, pe):
         else:
             ctx.probe("malformed_rejected")
         return []
+    if kind == "linalg":
+        f = op["f"]
+        obs = [obs_only(x, pe) for x in pool]
+        o1, o2, o3, o4 = (obs[(op["i"] + t) % len(obs)] for t in range(4))
+        M = np.array([[o1 + 5.0, o2 * 0.1], [o2 * 0.1, o3 + 7.0]], dtype=object)
+        try:
+            if f == "matmul":
+                res = pe.linalg.matmul(M, M)
+            elif f == "inv":
+                res = pe.linalg.inv(M)
+            elif f == "det":
+                res = pe.linalg.det(M)
+            elif f == "eigh":
+                res = pe.linalg.eigh(M)
+            elif f == "svd":
+                res = pe.linalg.svd(M)
+            elif f == "einsum":
+                if len(o1.mc_names) != 1 or o1.names != o2.names or o1.names != o3.names or o1.cov_names or len(o1.names) != 1:
+                    return []
+                res = pe.linalg.einsum("ij,jk->ik", M, M)
+            else:
+                if len(o1.mc_names) != 1 or o1.names != o2.names or o1.names != o3.names or o1.cov_names or len(o1.names) != 1:
+                    return []
+                res = pe.linalg.jack_matmul(M, M)
+        except Exception as e:
+            ctx.probe("linalg_raised_" + type(e).__name__)
+            return []
+        ctx.sig("linalg", f, "E%d" % len(set(e for x in (o1, o2, o3) for e in x.mc_names)))
+        flat = []
+
+        def walk(x):
+            if isinstance(x, (pe.Obs, pe.CObs)):
+                flat.append(x)
+            elif isinstance(x, (list, tuple, np.ndarray)):
+                for e in (x.ravel() if isinstance(x, np.ndarray) else x):
+                    walk(e)
+        walk(res)
+        for r_ in flat:
+            check(ctx, r_, "linalg." + f, "-")
+        return flat[:1]
     if kind == "construct_fuzz":
         # arbitrary constructor arguments; an independent predicate (transcribed from the statement) says whether the
         # request is well-formed: well-formed -> must construct a well-formed Obs, malformed -> must raise
